@@ -263,10 +263,165 @@ impl Stage for EarlySearch {
     }
 }
 
+
+// ---------------------------------------------------------------------------------------------
+// Scripted world: the way to the peers opens only late in the bootstrap
+
+#[derive(Clone, Debug, Serialize, Deserialize)]
+pub struct Case2 {
+    v6: bool,
+    /// "door" contacts: answer find_node after this many ms, naming everybody; their get_peers
+    /// answers carry a token and (only if `doors_reveal`) the holders
+    doors: Vec<u16>,
+    /// "holder" contacts: hold the peers (get_peers answered at once, with values) but answer
+    /// find_node only after this many ms (< 2.4 s), so the bootstrap completes late
+    holders: Vec<u16>,
+    doors_reveal: bool,
+    early: Vec<Early>,
+    busy: Option<(u16, u16)>,
+    rt_seed: u64,
+}
+
+pub struct ScriptedEarly;
+
+impl Stage for ScriptedEarly {
+    type Case = Case2;
+    fn name(&self) -> &'static str {
+        "late-door"
+    }
+    fn cases(&self, tier: Tier) -> u32 {
+        tier.pick(1500, 100_000)
+    }
+    fn strategy(&self, _t: Tier) -> BoxedStrategy<Case2> {
+        let early = (prop_oneof![2 => Just(0u8), 4 => Just(1u8), 2 => Just(2u8), 1 => Just(3u8), 1 => Just(4u8), 2 => Just(6u8)], 0u16..3000, any::<bool>())
+            .prop_map(|(mode, ms, announce)| Early { mode, ms, announce });
+        (
+            any::<bool>(),
+            vec(prop_oneof![Just(0u16), 0u16..300], 1..=3),
+            vec(prop_oneof![200u16..1900, 1000u16..1900], 1..=2),
+            prop::bool::weighted(0.3),
+            vec(early, 1..=5),
+            proptest::option::weighted(0.3, (300u16..1200, 10u16..40).prop_map(|(period, pct)| (period, (period as u32 * pct as u32 / 100) as u16))),
+            any::<u64>(),
+        )
+            .prop_map(|(v6, doors, holders, doors_reveal, early, busy, rt_seed)| Case2 { v6, doors, holders, doors_reveal, early, busy, rt_seed })
+            .boxed()
+    }
+    fn run(&self, c: &Case2) -> Outcome {
+        use crate::bcodec::*;
+        let rt = paused_rt(c.rt_seed);
+        rt.block_on(async {
+            let n_addr = fam_addr(c.v6, 500, 6881);
+            let n2_addr = fam_addr(c.v6, 501, 6881);
+            let pinger = fam_addr(c.v6, 990, 9990);
+            let net = SimNet::new(Box::new(BusyTwo { inner: Instant0, a: n_addr, b: n2_addr, to: pinger, ms: c.busy.map(|b| b.1 as u64).unwrap_or(0) }));
+            let nd = c.doors.len();
+            let nh = c.holders.len();
+            let all: Vec<(Id, SocketAddr)> = (0..nd + nh).map(|i| (mk_id(50 + i as u8, 7), fam_addr(c.v6, 10 + i as u16, 6881))).collect();
+            let holders: Vec<(Id, SocketAddr)> = all[nd..].to_vec();
+            let mut expected: BTreeSet<SocketAddr> = BTreeSet::new();
+            for i in 0..nd + nh {
+                let (id, addr) = all[i];
+                let others: Vec<(Id, SocketAddr)> = all.iter().enumerate().filter(|(j, _)| *j != i).map(|(_, x)| *x).collect();
+                let is_holder = i >= nd;
+                let fn_delay = if is_holder { c.holders[i - nd] } else { c.doors[i] } as u64;
+                let values: Vec<SocketAddr> = if is_holder { (0..2).map(|k| fam_addr(c.v6, 700 + (i * 4 + k) as u16, 5000 + k as u16)).collect() } else { vec![] };
+                expected.extend(values.iter().copied());
+                let reveal: Vec<(Id, SocketAddr)> = if is_holder { others.clone() } else if c.doors_reveal { holders.clone() } else { vec![] };
+                spawn_puppet(&net, addr, move |_raw, msg, from, _now| {
+                    let Some(m) = msg else { return vec![] };
+                    let KBody::Query(q) = &m.body else { return vec![] };
+                    match q {
+                        KQuery::Ping { .. } | KQuery::Announce { .. } => vec![Out::now(from, &resp(&m.tid, KResp { id: id.to_vec(), ..Default::default() }))],
+                        KQuery::FindNode { .. } => {
+                            let (nodes, nodes6) = node_lists(&others);
+                            vec![Out::after(fn_delay, from, &resp(&m.tid, KResp { id: id.to_vec(), nodes, nodes6, ..Default::default() }))]
+                        }
+                        KQuery::GetPeers { .. } => {
+                            let (nodes, nodes6) = node_lists(&reveal);
+                            vec![Out::now(from, &resp(&m.tid, KResp { id: id.to_vec(), nodes, nodes6, token: Some(vec![i as u8; 8]), values: values.clone() }))]
+                        }
+                    }
+                });
+            }
+            let contacts: Vec<SocketAddr> = all.iter().map(|x| x.1).collect();
+            if let Some((period, _)) = c.busy {
+                spawn_pinger(&net, pinger, n2_addr, 7, period as u64, 60);
+            }
+            let twin = start_node(&net, &NodeCfg { addr: n2_addr, id: mk_id(201, 0), read_only: false, nodes: contacts.clone(), routers: vec![], announce_port: None });
+            let start = net.now();
+            let tw = twin.clone();
+            let net3 = net.clone();
+            let late = tokio::spawn(async move {
+                let ok = tw.bootstrapped().await;
+                let booted = net3.now();
+                (ok, collect(&tw, false, Duration::from_secs(120)).await, booted)
+            });
+            let (ok, r_late, booted) = match within(Duration::from_secs(900), late).await {
+                Some(Ok(x)) => x,
+                _ => return Outcome::violation("setup-twin-hangs", "twin node did not bootstrap and search within 900 s"),
+            };
+            let boot_ms = (booted - start).as_millis() as u64;
+            let Some(r_late) = r_late else { return Outcome::violation("late-search-hangs", "a search issued right after bootstrapped() does not end within 120 s") };
+            if !ok {
+                return Outcome::violation("setup-twin-not-bootstrapped", "twin bootstrapped() returned false");
+            }
+            if r_late != expected {
+                // a holder's answer reached the (busy) twin only after the initial-round timeout:
+                // the reference itself does not see every holder, so the world is not the one this
+                // stage is about; nothing is asserted
+                return Outcome::pass(false).label("reference-misses-holders");
+            }
+            if let Some((period, _)) = c.busy {
+                spawn_pinger(&net, pinger, n_addr, net.now_ms() + 7, period as u64, 60);
+            }
+            let n = start_node(&net, &NodeCfg { addr: n_addr, id: mk_id(200, 0), read_only: false, nodes: contacts.clone(), routers: vec![], announce_port: None });
+            let n_start = net.now();
+            let first_door = *c.doors.iter().min().unwrap() as u64;
+            let mut handles = vec![];
+            let mut in_window = false;
+            for e in &c.early {
+                let at_ms: u64 = match e.mode {
+                    0 => 0,
+                    1 => e.ms as u64,
+                    2 => boot_ms.saturating_sub(1 + e.ms as u64 % 100),
+                    3 => boot_ms,
+                    6 => (boot_ms + e.ms as u64 / 8).saturating_sub(187),
+                    _ => boot_ms + e.ms as u64,
+                };
+                if at_ms > first_door + 2 && at_ms + 5 < boot_ms {
+                    in_window = true;
+                }
+                let dht = n.clone();
+                let net2 = net.clone();
+                let announce = e.announce;
+                handles.push((at_ms, tokio::spawn(async move {
+                    net2.sleep_until(n_start + Duration::from_millis(at_ms)).await;
+                    collect(&dht, announce, Duration::from_secs(1200)).await
+                })));
+            }
+            for (at_ms, h) in handles {
+                let got = match within(Duration::from_secs(2400), h).await {
+                    Some(Ok(Some(s))) => s,
+                    _ => return Outcome::violation("early-search-hangs", format!("search issued {at_ms} ms after start (bootstrap takes ~{boot_ms} ms) does not end within 1200 s")),
+                };
+                if got != r_late {
+                    let kind = if got.is_empty() { "early-search-empty" } else { "early-search-differs" };
+                    return Outcome::violation(kind, format!("search issued {at_ms} ms after start (first contact answers after {first_door} ms, bootstrap completes after ~{boot_ms} ms) yielded {got:?}; the same search right after bootstrapped() yields {r_late:?}"));
+                }
+            }
+            Outcome::pass(in_window).label(if in_window { "search-between-first-answer-and-completion" } else { "no-search-in-window" }).label(if c.doors_reveal { "doors-reveal" } else { "doors-mute" })
+        })
+    }
+    fn rule(&self) -> String {
+        "scripted world: 1..3 'door' contacts that answer find_node after 0..300 ms (naming everybody) but whose get_peers answers carry only a token (30 %: also the holders), and 1..2 'holder' contacts that hold the peers of H but answer find_node only after 0.2..1.9 s, so that the initial round stays open while the table already has good nodes; all are starting contacts of a fresh node N; 1..5 searches for H at: start, a generated offset 0..3 s, just before / at / after / within 190 ms of the completion time learnt from an identically configured twin; optionally a busy event loop. Oracle (metamorphic): when the twin's search right after bootstrapped() yields exactly the holders' peers (otherwise nothing is asserted), so does every search on N. Non-trivial: a search issued after the first contact answered and > 5 ms before completion".into()
+    }
+}
+
 pub fn spec() -> PropertySpec {
     PropertySpec {
         id: "C16",
-        stages: vec![Box::new(EarlySearch)],
+        stages: vec![Box::new(EarlySearch), Box::new(ScriptedEarly)],
         assumptions: vec!["The reference result is obtained from a twin node with the same contacts on the same network (its own address and the twin's are removed from both result sets).".into()],
         explanation: "Oracle: metamorphic relation between a search issued before bootstrap completion and the same search issued right after it.".into(),
     }
